@@ -5,6 +5,12 @@ V = "/verif"
 props = [json.loads(l) for l in open(V + "/properties.jsonl")]
 
 CLAIMED = {
+ "C14": dict(
+    text="Static rules over lib/ext2fs/csum.c, the library read/write paths, e2fsck and the journal code: on every read path the verifier is called and, if it keeps failing and checksum errors are not ignored, every return yields the class's error (path-sensitive); "
+         "on every write path the setter dominates the device write; verify/set of each class share the compute function, the stored field and the feature gate; each CRC chain starts at the prescribed seed and is threaded through every call, "
+         "fixed lengths equal clang's record layout, variable lengths have no constant clamp and cover the object in place; fs->csum_seed has one writer; crc32c-LE, crc32-BE (8x256 each) and crc16 tables equal their algebraic definitions (4352 entries evaluated by the checker); "
+         "every library checksum error code and every checksum-mismatch problem row leads to a non-zero -fn verdict. Decides wiring, symmetry, fixed-range and table clauses; not variable-range arithmetic or the CRC loop for all lengths.",
+    ref="§4 C14", technique="static analysis: path-sensitive exploration, dominance, sibling comparison, record-layout constants, constant-table evaluation"),
  "C11": dict(
     text="TABLE / call-graph / ORDER rules: the checksummed classes are enumerated from the checksum fields of the on-disk record types and rewrite_metadata_checksums() must reach a storer of each (call-site-sensitive callbacks) or must dirty-mark the owner whose flush routine does; "
          "each inode kind is selected by its own request bit and every seed-changing arm (metadata_csum on/off, stale csum_seed, UUID change) requests all bits; with a rewrite requested no path of main() reaches the close without performing it (error exits excepted); "
